@@ -198,7 +198,7 @@ def run(ctx):
     counter = [0]
     ids = lg.Ids()
     bases = [(b, True) for b in special_bases(ids)]
-    n_rand = ctx.budget(60, 6000)
+    n_rand = ctx.budget(60, 12000)
     sampled = False
     bi = 0
     total = len(bases) + n_rand
